@@ -289,45 +289,7 @@ func c08(r *Report, s *Sem) {
 			}})
 		r.Check(R2, "func "+fnName(est)+" / reply of "+fnName(rc.Call.StaticCallee())+" is what is returned if no later read", p.instrPos(rc), !bad, "a path returns an older session after this read")
 	}
-	// buildChannel publishes only on State == established of the returned session
-	var estCall *ssa.Call
-	eachInstr(build, func(in ssa.Instruction) {
-		if c, ok := in.(*ssa.Call); ok && c.Call.StaticCallee() == est {
-			estCall = c
-		}
-	})
-	if estCall == nil {
-		r.Undecided(R2, "func "+fnName(build)+" / EstablishSession call", p.pos(build.Pos()), "not found")
-	} else {
-		var ses ssa.Value
-		for _, ref := range *estCall.Referrers() {
-			if ex, ok := ref.(*ssa.Extract); ok && ex.Index == 0 {
-				ses = ex
-			}
-		}
-		okPub, n := true, 0
-		for _, rl := range returnLeaves(build, 0) {
-			if isNilConst(rl.v) {
-				continue
-			}
-			n++
-			g := condGuard(rl.b, func(cd Cond) bool {
-				if cd.Op != token.EQL {
-					return false
-				}
-				x, y := cd.X, cd.Y
-				if _, isC := stripConv(x).(*ssa.Const); isC {
-					x, y = y, x
-				}
-				cs, ok := constString(stripConv(y))
-				return ok && cs == "established" && ses != nil && fieldOf(x, ses, "State")
-			})
-			if !g || !errNilGuard(rl.b, estCall) {
-				okPub = false
-			}
-		}
-		r.Check(R2, "func "+fnName(build)+" / publishes only an established channel", p.instrPos(estCall), okPub && n > 0, "the channel may be returned only on the edge ses.State == established (and err == nil) of EstablishSession's own result")
-	}
+	checkBuilderPublishesEstablished(r, s, R2, build, est)
 
 	// ---- R3
 	var clientFns []*ssa.Function
